@@ -66,6 +66,14 @@ Theorem C05_commit_last :
 Proof. vm_compute. repeat split. Qed.
 Print Assumptions C05_commit_last.
 
+(* validation is what rejects a wrong result before it is left behind and what makes readers reject torn states: in the source as it
+   is now every `structure_validation` / `validate` parameter that has a default defaults to True (overload stubs excepted) *)
+Definition validation_default_ok (e : string * string * string) : bool :=
+  match e with (_, prm, d) => String.eqb prm "overwrite" || String.eqb d "True" || String.eqb d "required" || String.eqb d "..." end.
+Theorem C05_source_validation_defaults_true : forallb validation_default_ok param_defaults = true.
+Proof. vm_compute. reflexivity. Qed.
+Print Assumptions C05_source_validation_defaults_true.
+
 (* (c) a result rejected by structural validation is removed again: nodes, edges and the geff attribute are gone,
        every other member and attribute of the container is kept (for a path that held nothing else, the path is removed) *)
 Theorem C05_reject : forall k s a ch,
